@@ -236,6 +236,9 @@ var catalogue = map[string]spec{
 				m["drv.TransportType"] = o.S
 
 				return ""
+			case "":
+				// no name at all: rejected, or read as "keep the default"
+				return "maybe-bad-option"
 			}
 
 			return "bad-option"
